@@ -18,6 +18,7 @@ SEMANTIC = [
     "failed to prove",
     "call to non-static",
     "recommendation not met",
+    "unable to prove",
 ]
 
 def is_semantic(msg):
